@@ -327,11 +327,21 @@ func cmdCheck(args []string) int {
 		replay := filepath.Join(*outDir, "replays", *prop+"-"+sanitizeFile(w.Full)+".json")
 		rep := map[string]interface{}{"property": *prop, "obligation": w.Full, "clause": w.O.Clause, "where": w.O.Where, "answer": w.R.Answer, "solver": w.R.Solver, "solver_output": truncate(w.R.Output, 4000)}
 		suffix := " no-failing-input-found"
-		if w.R.Answer == "sat" {
-			m := Model(w.Ctx.Query(w.O, true), w.R.Solver, timeout, scratch)
-			rep["model"] = truncate(m, 20000)
-			if confirmed := tryReplay(*prop, w, m, rep); confirmed {
-				suffix = ""
+		{
+			// candidate counterexample from the quantifier-free relaxation
+			m := Model(w.Ctx.RelaxedQuery(w.O), "z3-new", 10*time.Second, scratch)
+			rep["candidate_model"] = truncate(m, 20000)
+			if *verbose {
+				head := m
+				if i := strings.Index(m, "\n(\n"); i >= 0 {
+					head = m[:i]
+				}
+				fmt.Printf("   candidate: %s\n", truncate(strings.TrimSpace(head), 1500))
+			}
+			if strings.HasPrefix(strings.TrimSpace(m), "sat") {
+				if confirmed := tryReplay(*prop, w, m, rep); confirmed {
+					suffix = ""
+				}
 			}
 		}
 		b, _ := json.MarshalIndent(rep, "", " ")
